@@ -19,6 +19,52 @@ CHECKS = {
                      "the reference semantics in vlib/refmodel.py. Bounds: quick L<=5 fail-fast / L<=4 collecting (5/3 on the five "
                      "widest rules), thorough 8/6 (6/4).",
                 ref="DESIGN.md 3 C01"),
+    "C02": dict(engine="pybmc", technique=PYBMC,
+                text="Bounded model checking of the content-validation decision logic: per rule, content is None or an abstract string "
+                     "(any of ~100 boundary literals, or 'some other string' whose parser outcomes and IEEE-754 value are free), and z3 shows "
+                     "acceptance equals the conjunction of the rule's declared content constraints in both modes, that only rule errors arise "
+                     "and that collecting mode appends well-formed content error codes.",
+                note="Stubs (float, int, strptime, time.fromisoformat, rfc3986, str.encode) model the parsers by their contracts and are "
+                     "part of the claim (listed in the evidence); which spellings CPython/rfc3986 accept is validated by native sampling of "
+                     "canonical and malformed class members, labelled as sampling. Non-encodable strings are left unspecified for acceptance.",
+                ref="DESIGN.md 3 C02"),
+    "C03": dict(engine="pybmc", technique=PYBMC,
+                text="For every rule one z3 query per mode over a symbolic attribute dict (each declared attribute absent / each listed value / "
+                     "an unlisted value, plus one foreign attribute): acceptance equals required-present and no-foreign and enumerated-listed; "
+                     "collecting mode appends exactly one error per violated constraint, by code; introspection helpers agree with the table "
+                     "for every declared name and refuse every other string.",
+                note="The abstraction is the one in the property's quantifier, decided symbolically (no length bound). Trusted: z3, the interpreter "
+                     "(replay + twin validation), attribute iteration in declaration order.",
+                ref="DESIGN.md 3 C03"),
+    "C04": dict(engine="pybmc", technique=PYBMC,
+                text="Per element name (and an unknown name, and rules no element maps to) one encoding of validate.node with content, attributes "
+                     "and up to L child names all symbolic, fail-fast and collecting run back to back: z3 shows no exception outside the rule-error "
+                     "family escapes fail-fast mode, collecting mode never raises and appends (code, message, node, ...) tuples, and the list is "
+                     "empty exactly when fail-fast succeeds. Tree level by composition with C05; depth-100 termination is one concrete run.",
+                note="Bounds: L<=2 children quick, L<=4 (3 on the widest rules) thorough; long child sequences are C01's claim. Same stubs as C02.",
+                ref="DESIGN.md 3 C04"),
+    "C05": dict(engine="pybmc", technique=PYBMC,
+                text="For every ordered tree shape up to N nodes, with a symbolic name ({metadata, other}) and an uninterpreted pass/fail outcome per "
+                     "node, z3 shows validate.tree accepts iff every node not below a metadata element passes, never visits a node below metadata, "
+                     "raises the first failing node's error, and in collecting mode produces the document-order concatenation.",
+                note="N<=5 quick (23 shapes), N<=7 thorough (197 shapes). validate.node is stubbed by an uninterpreted outcome (that is the "
+                     "property's own abstraction). A restructured traversal the merged interpreter cannot model is explored path-wise with a "
+                     "coverage obligation.",
+                ref="DESIGN.md 3 C05"),
+    "C10": dict(engine="pybmc", technique=PYBMC,
+                text="Closure: per reachable rule a z3 query over ALL strings for a child the rule allows that is not a known element (all models "
+                     "enumerated). Mapping: symbolic element name through the real get_rule. Content rules: symbolic rule-name string through the "
+                     "real dispatch. Satisfiability: z3 synthesises an accepted node per element over already-completable children; the assembled "
+                     "witness tree must pass the real validate.tree. Structural well-formedness is a finite table walk (labelled).",
+                note="Complete over the shipped tables. Three closure gaps are recorded known findings (software, protocol, studyAreaDescription).",
+                ref="DESIGN.md 3 C10"),
+    "C17": dict(engine="pybmc", technique=PYBMC,
+                text="Per rule and length L, existing child names (over the rule's names) and the new name (any string) symbolic: z3 shows refusal "
+                     "iff the name is not in the rule (ChildNotAllowedError only), the index is within bounds, keeps declared order, and is a valid "
+                     "insertion position whenever one exists (reference DFA); is_allowed_child is true exactly for names that occur in some "
+                     "valid sequence.",
+                note="L<=5 quick (4 on the widest rules), L<=8 (6) thorough. Rules naming a child twice are outside the quantifier (none today).",
+                ref="DESIGN.md 3 C17"),
 }
 
 NOT_YET = "not claimed yet: check under construction in this round (see DESIGN.md)"
